@@ -383,14 +383,14 @@ pub fn check(tier: &str) -> i32 {
     let dims: Vec<u64> = if thorough {
         vec![2, 3, 2, 5, 250, 3]
     } else {
-        vec![2, 2, 2, 2, 250, 2]
+        vec![2, 2, 2, 3, 250, 3]
     };
     let cfg_of = |i: u64| -> Cfg {
         let x = unrank(i, &dims);
         if thorough {
             Cfg { subtype: x[0] == 1, family: x[1], two_intf: x[2] == 1, second: x[3], j1: x[4], later: x[5], probe: true }
         } else {
-            Cfg { subtype: x[0] == 1, family: [0, 2][x[1] as usize], two_intf: x[2] == 1, second: [0, 3][x[3] as usize], j1: x[4], later: [0, 2][x[5] as usize], probe: true }
+            Cfg { subtype: x[0] == 1, family: [0, 2][x[1] as usize], two_intf: x[2] == 1, second: [0, 1, 3][x[3] as usize], j1: x[4], later: x[5], probe: true }
         }
     };
     let main = FnPart {
